@@ -200,6 +200,9 @@ class InoSpec(FnSpec):
                     ex.oblige(f"release[J:{nm}]", f, kind="lock-invariant")
                 self.on_release(ex)
                 ex.held.remove(LOCK)
+                # from here on other threads run: what this thread does next WITHOUT the lock (poll/read by the reader, a
+                # write by a closer) sees the shared state only up to the rely
+                self.havoc(ex)
             return
         raise Unsupported("with")
 
@@ -342,11 +345,11 @@ class ReadEvents(InoSpec):
         self.var_types = {"event_list": W.LEv, "events": W.LEv}
         hv = [("call", self.havoc_maps)]
         self.loops = {
-            1: LoopSpec("os.walk(src_path)", self.inv_walk, modifies=[("call", self.havoc_sim)], ghost_start=self.gs_walk),
-            2: LoopSpec("dirnames", self.inv_dirs, modifies=[("call", self.havoc_sim)], ghost_end=self.ge_dir),
-            3: LoopSpec("filenames", self.inv_files, modifies=[("call", self.havoc_sim)]),
+            1: LoopSpec("os.walk(src_path)", self.inv_walk, modifies=[("call", self.havoc_sim)], ghost_start=self.gs_walk, every_element=True),
+            2: LoopSpec("dirnames", self.inv_dirs, modifies=[("call", self.havoc_sim)], ghost_start=self.gs_sim_entry, ghost_end=self.ge_dir, every_element=True),
+            3: LoopSpec("filenames", self.inv_files, modifies=[("call", self.havoc_sim)], ghost_start=self.gs_sim_entry, ghost_end=self.ge_file, every_element=True),
             4: LoopSpec("True", self.inv_prologue, modifies=[("call", self.havoc_shared_outside)]),
-            5: LoopSpec("Inotify._parse_event_buffer(event_buffer)", self.inv_records, modifies=hv, ghost_start=self.gs_record, ghost_end=self.ge_record),
+            5: LoopSpec("Inotify._parse_event_buffer(event_buffer)", self.inv_records, modifies=hv, ghost_start=self.gs_record, ghost_end=self.ge_record, every_element=True),
             6: LoopSpec("self._wd_for_path.copy()", self.inv_rekey, modifies=[("call", self.havoc_rekey)]),
         }
         self.expected_covers = ["loop1.body", "loop1.end", "loop2.body", "loop2.end", "loop3.body", "loop3.end", "loop4.body", "loop5.body", "loop5.end", "loop6.body", "loop6.end", "exit"]
@@ -593,8 +596,35 @@ class ReadEvents(InoSpec):
     def inv_dirs(self, ex, k):
         return self.inv_walk(ex, k) + [("every listed sub-directory so far was tried (no failure abandons its siblings)", self.dvis == k)]
 
+    def gs_sim_entry(self, ex, k, el=None):
+        sc = ex.scope.lookup("events")
+        self.sim_ev0 = sc.vars["events"] if sc is not None else None
+
+    def simulated_record(self, ex, el, isdir):
+        """a record the reader makes up for an entry it found by walking a directory that was populated before its watch
+        existed: IN_CREATE (|IN_ISDIR) for exactly that entry - the listed name under the directory being listed"""
+        W = self.W
+        if "maps" not in self.want:      # a statement about paths: C02's, not C07's (exception freedom) or C12's (descriptors)
+            return
+        sc, rs = ex.scope.lookup("events"), ex.scope.lookup("root")
+        e0, e1 = self.sim_ev0, (sc.vars["events"] if sc is not None else None)
+        if not (isinstance(e0, VList) and isinstance(e1, VList) and rs is not None):
+            ex.oblige("simulated[the walk appends native events]", False)
+            return
+        root = W.Path.unwrap(rs.vars["root"])
+        name = W.Path.unwrap(el)
+        ev = e1.arr[e0.n]
+        P = W.NEvTT.proj
+        want_mask = z3.BitVecVal(T.ABI["IN_CREATE"] | (T.ABI["IN_ISDIR"] if isdir else 0), 32)
+        ex.oblige(f"simulated[{'directory' if isdir else 'file'}: at most one made-up record per listed entry, IN_CREATE{'|IN_ISDIR' if isdir else ''} for the listed name under the directory being listed]",
+                  z3.Or(e1.n == e0.n, z3.And(e1.n == e0.n + 1, P[1](ev) == want_mask, P[3](ev) == name, P[4](ev) == W.join(root, name))))
+
     def ge_dir(self, ex, k, el=None):
         self.dvis = k + 1
+        self.simulated_record(ex, el, True)
+
+    def ge_file(self, ex, k, el=None):
+        self.simulated_record(ex, el, False)
 
     def inv_files(self, ex, k):
         out = self.inv_walk(ex, k)
